@@ -6,6 +6,8 @@ def run(ctx):
     if not ctx.replay:
         mptcommon.model_check(ctx)
     allb, nbfs, wl = mptcommon.behaviours(ctx)
+    # exhaustive only when the complete BFS set of the generator (all behaviours of depth 2) is replayed as well
+    ctx.exhaustive = bool(nbfs)
     mptcommon.replay(ctx, allb, "c17")
     mptcommon.sample(ctx, allb)
     return ctx.finish(
